@@ -4,6 +4,8 @@ import (
 	"bytes"
 	"fmt"
 	"regexp"
+	"regexp/syntax"
+	"unicode/utf8"
 )
 
 type Matcher struct {
@@ -131,30 +133,31 @@ func (m *Matcher) MatchRegexAndExpand(key, template []byte) (string, bool) {
 	return string(m.regex.Expand(dst, template, key, matches)), true
 }
 
-// regexToPrefix inspects the regex and returns the longest static prefix part of the regex
-// all inputs for which the regex match, must have this prefix
+// regexToPrefix inspects the parsed regex and returns a literal prefix
+// that every input matched by the regex must start with (possibly empty).
+// Only an expression that is anchored with ^ and continues with literal,
+// case sensitive ASCII characters yields a prefix; anything that could make
+// a character optional (quantifiers, alternation, groups) ends the prefix.
 func regexToPrefix(regex string) []byte {
-	substr := ""
-	for i := 0; i < len(regex); i++ {
-		ch := regex[i]
-		if i == 0 {
-			if ch == '^' {
-				continue // good we need this
-			} else {
-				break // can't deduce any substring here
-			}
-		}
-		if (ch >= 'a' && ch <= 'z') || (ch >= 'A' && ch <= 'Z') || (ch >= '0' && ch <= '9') || ch == '_' || ch == '-' {
-			substr += string(ch)
-			// "\." means a dot character
-		} else if ch == 92 && i+1 < len(regex) && regex[i+1] == '.' {
-			substr += "."
-			i += 1
-		} else {
-			//fmt.Println("don't know what to do with", string(ch))
-			// anything more advanced should be regex syntax that is more permissive and hence not a static substring.
+	re, err := syntax.Parse(regex, syntax.Perl)
+	if err != nil {
+		return nil
+	}
+	re = re.Simplify()
+	if re.Op != syntax.OpConcat || len(re.Sub) < 2 || re.Sub[0].Op != syntax.OpBeginText {
+		return nil
+	}
+	var prefix []byte
+	for _, sub := range re.Sub[1:] {
+		if sub.Op != syntax.OpLiteral || sub.Flags&syntax.FoldCase != 0 {
 			break
 		}
+		for _, r := range sub.Rune {
+			if r >= utf8.RuneSelf {
+				return prefix
+			}
+			prefix = append(prefix, byte(r))
+		}
 	}
-	return []byte(substr)
+	return prefix
 }
